@@ -111,8 +111,16 @@ def spell(rng, w, entry, cwd, kind):
     """one of many spellings of `entry` (absolute model path) as seen from cwd"""
     d, name = os.path.split(entry)
     rel = relpath(entry, cwd)
-    choices = ["rel", "rel", "abs", "dot", "slash", "slashes", "dotdot", "abs-slash", "dslash-abs", "via-link-parent"]
+    choices = ["rel", "rel", "abs", "dot", "slash", "slashes", "dotdot", "abs-slash", "dslash-abs", "via-link-parent",
+               "symlink-dotdot"]
     c = rng.choice(choices)
+    if c == "symlink-dotdot":
+        # d/lk -> R/other/sub ; "d/lk/../name" designates R/other/name for the kernel, d/name lexically
+        w.dir(R + b"/other/sub")
+        w.file(R + b"/other/" + name, b"the entry the kernel designates")
+        lk = d + b"/lk-elsewhere"
+        w.link(lk, R + b"/other/sub")
+        return relpath(lk, cwd) + b"/../" + name, c
     if c == "rel":
         return rel, c
     if c == "abs":
@@ -204,6 +212,18 @@ def gen_put_world(rng, profile="mixed"):
         s, sp = spell(rng, w, d + b"/" + name, cwd, kind)
         args.append(s)
         meta.append({"class": "entry", "kind": kind, "spelling": sp, "entry": d + b"/" + name})
+    # arguments must designate unrelated entries: drop a mount-point argument when another entry lives below it
+    keep = []
+    for a, mt in zip(args, meta):
+        if mt["class"] == "mountpoint":
+            mp = os.path.normpath(a if a.startswith(b"/") else os.path.join(cwd, a))
+            if any(o.get("entry", b"").startswith(mp + b"/") for o in meta) or cwd.startswith(mp):
+                continue
+        keep.append((a, mt))
+    if not keep:
+        keep = [(b"missing", {"class": "missing"})]
+    args, meta = [k[0] for k in keep], [k[1] for k in keep]
+    nargs = len(args)
     # pre-existing content in the candidate trash dirs (collisions included)
     for tdir in {home + b"/.local/share/Trash"} | {v + b"/" + uid_dir(uid) for v in vols}:
         if rng.random() < 0.3 and (tdir not in w.nodes or w.nodes[tdir]["k"] == "d"):
